@@ -220,8 +220,9 @@ def build_cases(chk) -> list[dict]:
             spec = json.loads(f.read_text())
         except Exception:  # noqa: BLE001
             continue
+        extra = {k: spec[k] for k in ("kinds_sets", "cli_kinds", "cli_lang") if k in spec}
         add(spec["assignment"], spec["formats"], origin="corpus:" + f.name,
-            own_gcc=bool(spec.get("own_gcc")), graph="all")
+            own_gcc=bool(spec.get("own_gcc")), graph="all", **extra)
 
     # 0b. typed refusals of ill-formed requests
     for a_, fm in REFUSALS:
@@ -564,6 +565,19 @@ def classify0(case: dict, r: dict, f: dict, row: list[int] | None) -> tuple[str 
         if row is not None and row.bad:
             return "K-C08-1", None
         return None, None
+    # K-C08-6: the same kernel type requested twice (not a *set* of kernel kinds, but the CLI accepts it)
+    kinds = None
+    if ":" in where and "|" in where:
+        kinds = where.split(":", 1)[1].split("|")[0].split("+")
+    elif where == "cli":
+        kinds = (r.get("cli") or {}).get("key", "|").split("|")[0].split("+")
+    if kinds and len(set(kinds)) != len(kinds):
+        dup = [k for k in KINDS if kinds.count(k) > 1][0]
+        if what == "Internal:DuplicatedNameError@codegen/_ir_to_llvm.py:ir_to_llvm_function_definition":
+            return "K-C08-6", None
+        if where.startswith("toolchain:") and where.endswith("|c") and "redefinition" in f.get("first_error", "") \
+                and ("‘" + dup + "’") in f.get("first_error", ""):
+            return "K-C08-6", None
     # K-C08-3: bucket variable name collides with pos/crd array name of a tensor called "bucket"
     k3_names = BUCKET_TENSOR in tensors[1:] and target in BUCKET_OUTPUTS
     if k3_names:
@@ -638,7 +652,9 @@ def run(chk):
         "sub-graphs are argued (not proved) to fail only where the un-exhausted graph fails",
         "gcc -fsyntax-only -std=c99 and llvmlite verify as the tool chains; several kernels share one gcc run "
         "(kernel function names renamed with #define), single runs on any failure and for unusual identifiers",
-        "harness/c08_worker.py dumpers (Python objects -> Coq terms); SumNode names erased",
+        "harness/c08_worker.py dumpers (Python objects -> Coq terms) and the two copies of the canonical graph "
+        "printer + 61-bit polynomial hash (Graphs.v show_graph/hash_string, worker show_graph/hash_string); "
+        "SumNode names erased",
     ]
     t0 = time.time()
     ok = chk.coq_props()
@@ -725,6 +741,8 @@ def run(chk):
                     chk.count("corr:outcome-equal")
                 elif name_related and pc is None:
                     chk.count("corr:skipped-name-finding")
+                elif len(set(ks)) != len(ks) and g["outcome"].startswith("Internal:DuplicatedNameError@codegen/_ir_to_llvm.py"):
+                    chk.count("corr:skipped-duplicate-kind")
                 elif repaired(pc, i):
                     k1_fixed += 1
                 else:
@@ -847,6 +865,8 @@ def describe(fid: str) -> str:
                    "is called pos/crd - C redeclaration / TypeError in the LLVM back end",
         "K-C08-5": "input tensor named like a Python keyword - inspect.Parameter raises ValueError in "
                    "TensorMethod.__init__ (tensor_method only)",
+        "K-C08-6": "the same kernel type requested twice (e.g. -t compute -t compute): DuplicatedNameError traceback "
+                   "from codegen/_ir_to_llvm.py, C with a redefined function",
         "K-C08-4": "identifier malloc/realloc overwrites the runtime function in the LLVM back end's locals - "
                    "AttributeError/TypeError in codegen/_ir_to_llvm.py",
     }[fid]
